@@ -283,6 +283,21 @@ class Check:
                 for n in missing:
                     self.obligations.append({'name': n, 'kind': 'theorem', 'ok': False, 'detail': 'no Print Assumptions'})
                     self.broken.append('theorem %s has no Print Assumptions' % n)
+            if self.tier == 'thorough' and plist and not self.broken and not os.environ.get('NV_NO_COQCHK'):
+                # independent re-check of the compiled property files and everything they depend on
+                mods = ['NV.Props.' + pf for pf in plist]
+                rc, out = sh(['coqchk', '-silent', '-o', '-Q', '.', 'NV'] + mods, cwd=COQ, timeout=3000)
+                ax = re.search(r'\* Axioms:(.*?)\n\s*\n\* Constants/Inductives relying on type-in-type:(.*?)\n\s*\n'
+                               r'\* Constants/Inductives relying on unsafe \(co\)fixpoints:(.*?)\n\s*\n'
+                               r'\* Inductives whose positivity is assumed:(.*?)\n', out, flags=re.S)
+                fields = [' '.join(g.split()) for g in ax.groups()] if ax else None
+                good = rc == 0 and fields is not None and all(f == '<none>' or all(
+                    a.split('.')[-1] in {x.split('.')[-1] for x in STD_AXIOMS_ALLOWED} for a in f.split()) for f in fields[:1]) \
+                    and all(f == '<none>' for f in (fields or ['x'])[1:])
+                self.obligations.append({'name': 'coqchk -o ' + ' '.join(mods), 'kind': 'coqchk', 'ok': good,
+                                         'axioms': fields[0] if fields else None, 'detail': None if good else out[-400:]})
+                if not good:
+                    self.broken.append('coqchk failed or reports axioms/unsafe features: ' + (str(fields) if fields else out[-300:]))
             self.checker_cmd = 'make -C coq %s && ' % ' '.join(targets) + ' && '.join('coqc -Q coq NV coq/Props/%s.v' % pf for pf in plist)
         return not self.broken
 
